@@ -30,7 +30,7 @@ n_neutral = sum(1 for m in metas if not m.get('caught_by')
 n_undecided = sum(1 for m in metas if not m.get('caught_by')
                   and str(m.get('status', '')).startswith('NOT DECIDED'))
 n_missed = len(metas) - n_caught - n_neutral - n_undecided
-out.append('Totals over fourteen batches of 13 changes (three in the first round, two in the second, one in each later round): %d changes, %d caught (%d of them only '
+out.append('Totals over fifteen batches of 13 changes (three in the first round, two in the second, one in each later round): %d changes, %d caught (%d of them only '
            'by the thorough tier, marked in the table), %d neutralised by a repair of the '
            'defect they build on (each was caught on the tree it was written for, or its '
            'defect class is what the repair\'s check now covers - see its meta.json), %d not '
